@@ -66,7 +66,11 @@ def _run_cvc5(text, timeout_ms):
 
 
 def _job(args):
-    name, text, cover, timeout_ms, use_cvc5 = args
+    name, text, cover, timeout_ms, use_cvc5, prefer = args
+    if prefer == "cvc5":
+        r, info, dt = _run_cvc5(text, timeout_ms)
+        if r in ("sat", "unsat"):
+            return (name, r, info, dt, "cvc5")
     r, info, dt = _run_z3(text, timeout_ms)
     backend = "z3"
     if r in ("unknown", "error") and use_cvc5:
@@ -90,8 +94,10 @@ def discharge(obligations, timeout_ms=10000, jobs=None, use_cvc5=True):
     jobs = jobs or min(16, os.cpu_count() or 4)
     payload = []
     for i, ob in enumerate(obligations):
-        payload.append(("%d" % i, to_smt2(ob.assumptions, ob.goal, ob.kind == "cover"), ob.kind == "cover",
-                        timeout_ms, use_cvc5))
+        cover = ob.kind == "cover"
+        payload.append(("%d" % i, to_smt2(ob.assumptions, ob.goal, cover), cover,
+                        min(timeout_ms, 3000) if cover else timeout_ms, use_cvc5 and not cover,
+                        (ob.info or {}).get("prefer")))
     results = [None] * len(obligations)
     if jobs == 1 or len(payload) <= 2:
         outs = map(_job, payload)
